@@ -55,6 +55,7 @@ inductive Rej
   | writeReadonly (x : Nat)  -- in-place write through a read-only array (NumPy raises ValueError)
   | storeCaller (f : Nat)    -- self keeps a reference into memory of the caller
   | retInternal (x : Nat)    -- a writeable alias of internal storage is handed out
+  | retCaller (x : Nat)      -- a public entry point hands the caller's own memory back as an output
   | bits                     -- wrong number of branch bits for this entry point
 deriving DecidableEq, Repr
 
@@ -163,6 +164,12 @@ def retCheck (c : Ctl) : List (Nat × Val) → Except Rej Unit
   | (x, v) :: rest =>
     if v.w = true ∧ c.own v.reg = .internal then .error (.retInternal x) else retCheck c rest
 
+/-- public entry points ("outputs are copies"): nothing handed out lies in memory of the caller -/
+def retCallerCheck (c : Ctl) : List (Nat × Val) → Except Rej Unit
+  | [] => .ok ()
+  | (x, v) :: rest =>
+    if c.own v.reg = .caller then .error (.retCaller x) else retCallerCheck c rest
+
 /-- monitored execution of a whole entry point: `ok` = accepted -/
 def exec (c : Ctl) (ps : List Stmt) : Except Rej Ctl :=
   match c.run ps with
@@ -228,11 +235,21 @@ structure Entry where
   nself : Nat                  -- number of pre-existing internal regions (self fields 0 … nself-1)
   nbits : Nat                  -- number of branch bits
   prog  : List Bool → Option (List Stmt)   -- `none` = wrong number of bits
+  strict : Bool := true        -- a public entry point: its outputs must not alias the caller's memory either
+                               -- (false for internal helpers whose purpose is to pass the caller's arrays on)
 
 def Entry.check (E : Entry) (bits : List Bool) : Except Rej Ctl :=
   match E.prog bits with
   | none => .error .bits
-  | some ps => (Ctl.init E.args E.nself).exec ps
+  | some ps =>
+    match (Ctl.init E.args E.nself).exec ps with
+    | .error e => .error e
+    | .ok c =>
+      if E.strict then
+        match c.retCallerCheck c.rets.reverse with
+        | .error e => .error e
+        | .ok () => .ok c
+      else .ok c
 
 def Entry.accepts (E : Entry) (bits : List Bool) : Bool := isOk (E.check bits)
 
@@ -548,6 +565,7 @@ def eXfSingle : Entry :=
   { name := "transforms.single_entry_with_threshold",
     pyfn := "ribs/archives/_transforms.py:single_entry_with_threshold",
     args := [.caller, .caller, .caller, .fresh, .fresh], nself := nSelf, nbits := 0,
+    strict := false,   -- passes the caller's arrays on by design
     prog := fun
       | [] => some <| pSingleThr 0 1 2 3 4 10 20 ++
           [ .ret 10, .ret 11, .ret 12, .ret 13, .ret 14, .ret 15 ]
@@ -556,6 +574,7 @@ def eXfSingle : Entry :=
 def eXfObjSum : Entry :=
   { name := "transforms.compute_objective_sum", pyfn := "ribs/archives/_transforms.py:compute_objective_sum",
     args := [.caller, .caller, .fresh, .fresh], nself := nSelf, nbits := 0,   -- indices, objective, occupied, cur objective
+    strict := false,   -- passes the caller's arrays on by design
     prog := fun
       | [] => some <| pObjSum 1 2 3 10 20 ++ [ .ret 0, .ret 1, .ret 10 ]
       | _ => none }
@@ -563,6 +582,7 @@ def eXfObjSum : Entry :=
 def eXfBestIdx : Entry :=
   { name := "transforms.compute_best_index", pyfn := "ribs/archives/_transforms.py:compute_best_index",
     args := [.caller, .caller], nself := nSelf, nbits := 0,
+    strict := false,   -- passes the caller's arrays on by design
     prog := fun
       | [] => some <| pBestIdx 0 1 10 20 ++ [ .ret 0, .ret 1, .ret 10 ]
       | _ => none }
@@ -570,6 +590,7 @@ def eXfBestIdx : Entry :=
 def eValidateBatch : Entry :=
   { name := "validate_batch", pyfn := "ribs/_utils.py:validate_batch",
     args := caller 7, nself := nSelf, nbits := 7,   -- solution, objective, measures, extra, status, value, jacobian
+    strict := false,   -- passes the caller's arrays on by design
     prog := fun
       | [cSol, cObj, cMeas, cEx, cSt, cVal, cJac] => some
           [ .asarray 10 0 cSol, .asarray 11 1 cObj, .asarray 12 2 cMeas, .asarray 13 3 cEx,
@@ -580,6 +601,7 @@ def eValidateBatch : Entry :=
 def eValidateSingle : Entry :=
   { name := "validate_single", pyfn := "ribs/_utils.py:validate_single",
     args := caller 4, nself := nSelf, nbits := 2,
+    strict := false,   -- passes the caller's arrays on by design
     prog := fun
       | [cSol, cMeas] => some
           [ .asarray 10 0 cSol, .new 11, .asarray 12 2 cMeas, .view 13 3,
@@ -1114,10 +1136,18 @@ def nTellDqdKeepsSolution : Neg :=
            prog := fun | [c] => some [ .asarray 10 0 c, .store F.emit 10 ] | _ => none },
     bits := [false], why := .storeCaller F.emit }
 
+/-- mutant: `cqd_score` without `np.copy(target_points)` ("Copy since we return this"): the result holds the
+caller's array. -/
+def nCqdNoCopy : Neg :=
+  { E := { name := "M.cqd_returns_caller_arrays", pyfn := "ArchiveBase.cqd_score with target_points = target_points",
+           args := caller 2, nself := nSelf, nbits := 0,
+           prog := fun | [] => some [ .view 10 0, .copy 11 1, .ret 10, .ret 11 ] | _ => none },
+    bits := [], why := .retCaller 10 }
+
 def negatives : List Neg :=
   [ nD7, nD10, nD10b, nD15, nD19, nD20, nRetrieveSlice, nDataField, nAdamInplace, nAddKeeps,
     nXfWritesNew, nRawWrite, nD38cvt, nD38init, nD41, nD36, nObjAsStored,
-    nBestFromBatch, nTellDqdKeepsSolution ]
+    nBestFromBatch, nTellDqdKeepsSolution, nCqdNoCopy ]
 
 def Neg.holds (n : Neg) : Bool := n.E.verdict n.bits == some n.why
 
